@@ -850,7 +850,7 @@ pub fn run_c14(tier: Tier) -> i32 {
     }
     let like: &[&str] = if tier == Tier::Quick { &["KNNk", "KRRk", "KQQk", "KBBk"] } else { &["KNNk", "KRRk", "KQQk", "KBBk", "Kknn", "Kkrr", "KPPk", "KQkq", "KRkn"] };
     // two like pieces: all placements in thorough runs, a co-prime sub-lattice in quick runs
-    let like_stride: u64 = if tier == Tier::Quick { 31 } else { 1 };
+    let like_stride: u64 = if tier == Tier::Quick { 61 } else { 1 };
     for sig in like {
         let t0 = Instant::now();
         let fam = Material::new(sig);
@@ -868,6 +868,26 @@ pub fn run_c14(tier: Tier) -> i32 {
             let n2 = for_family(&Flipped(f), &|p| visit(&ctx, p));
             fams.push(json!({"family": f.name(), "legal_members": n, "flipped_members": n2, "secs": t0.elapsed().as_secs_f64()}));
         }
+    }
+    // three like pieces aiming at one square with an enemy slider around (pins, blocks, checks)
+    for kind in [KNIGHT, ROOK, QUEEN, BISHOP] {
+        let t0 = Instant::now();
+        let fam = Like3 { kind };
+        // co-prime strides giving a few 10^5 members per kind in quick runs
+        let stride: u64 = match (tier, kind) {
+            (Tier::Quick, KNIGHT) => 10_007,
+            (Tier::Quick, BISHOP) => 50_021,
+            (Tier::Quick, ROOK) => 150_001,
+            (Tier::Quick, _) => 900_001,
+            (Tier::Thorough, KNIGHT) => 499,
+            (Tier::Thorough, BISHOP) => 2_503,
+            (Tier::Thorough, ROOK) => 3_001,
+            (Tier::Thorough, _) => 20_011,
+        };
+        let sf = Strided(&fam, stride);
+        let n = for_family(&sf, &|p| visit(&ctx, p));
+        let n2 = for_family(&Flipped(&sf), &|p| visit(&ctx, p));
+        fams.push(json!({"family": sf.name(), "legal_members": n, "flipped_members": n2, "secs": t0.elapsed().as_secs_f64()}));
     }
     // three / four queens: file+rank disambiguation, on a sub-lattice of KQQQk
     {
